@@ -33,7 +33,8 @@ MANIFEST = {
              "or with two devices of one type under one parent, are outside the hypothesis stdGateway."),
     "technique": "Lean 4 proof (tree induction, decide over generated tables, history induction) + model/implementation correspondence",
 }
-RULE = ("routing: every subset of the five service types x 4 placements x 2 action-set variants, every facade operation "
+RULE = ("routing: every subset of the five service types x 4 placements x action-set variants, SCPDs omitting actions "
+        "(exhaustive per facade action over two offered services of a family, random subsets per service), every facade operation "
         "once per gateway (requests recorded by control URL); counters: reading series of length 1..6 per counter over "
         "{increasing, equal, wrapped, negative, absent, SOAP fault, transport error, HTTP error, bad XML} with patched "
         "datetime.now. non-trivial = at least one request was sent (routing) / at least one rate is present or one reading "
